@@ -154,7 +154,7 @@ def build(spec, da, progress=None):
         cur = source(spec["src"], da)
         for k, st in enumerate(spec["steps"]):
             if progress is not None:
-                progress[:] = [k]
+                progress[:] = [k, cur]
             cur = apply(cur, st, da)
     return cur
 
@@ -177,7 +177,15 @@ def decode(e):
     return np.array(e["data"], dtype=e["dtype"]).reshape(e["shape"])
 
 
-def _err(e, stage, step=None):
+def _meta_none(x):
+    """Diagnostic flag: some expression under ``x`` has ``_meta is None`` (meta inference failed silently)."""
+    try:
+        return any(getattr(e, "_meta", 0) is None for e in x.expr.walk())
+    except Exception:  # noqa: BLE001
+        return None
+
+
+def _err(e, stage, step=None, x=None):
     where = ""
     for fr in reversed(traceback.extract_tb(e.__traceback__)):
         if "/dask/" in fr.filename:
@@ -188,8 +196,9 @@ def _err(e, stage, step=None):
     # type of the swallowed exception.  A plain NotImplementedError means "outside the engine's domain".
     masked = type(e.__context__).__name__ if isinstance(e, NotImplementedError) and e.__context__ is not None else None
     kind = "notimpl" if isinstance(e, NotImplementedError) and masked is None else "error"
-    msg = str(e)[:300] if masked is None else f"(masking {masked}: {str(e.__context__)[:200]})"
-    return {kind: {"stage": stage, "type": type(e).__name__, "msg": msg, "where": where, "step": step, "masked": masked}}
+    msg = str(e).strip().split("\n")[0][:300] if masked is None else "(masking %s: %s)" % (masked, " ".join(str(e.__context__).split())[:160])
+    return {kind: {"stage": stage, "type": type(e).__name__, "msg": msg, "where": where, "step": step, "masked": masked,
+                   "meta_none": _meta_none(x) if x is not None else None}}
 
 
 def answer(spec):
@@ -200,7 +209,7 @@ def answer(spec):
     try:
         x = build(spec, da, progress)
     except Exception as e:  # noqa: BLE001
-        return _err(e, "build", progress[0] if progress else None)
+        return _err(e, "build", progress[0] if progress else None, progress[1] if progress else None)
     out = {"variants": {}}
     variants = {
         "plain": lambda: x,
@@ -216,7 +225,7 @@ def answer(spec):
                 info["value"] = encode(y.compute(scheduler="sync"))
             out["variants"][name] = info
         except Exception as e:  # noqa: BLE001
-            return _err(e, name)
+            return _err(e, name, x=x)
     try:
         out["changed"] = bool(x.expr.optimize()._name != x.expr._name)
         out["changed_simplify"] = bool(x.expr.simplify()._name != x.expr._name)
